@@ -1701,3 +1701,99 @@ pub(crate) mod verif_local {
         (name, forced)
     }
 }
+
+/// verif-hooks: what `MacroBranch::rewrite` works from and what it returns, for the first arm of a
+/// macro definition (C04: re-indentation of a formatted macro body around skipped lines).
+#[cfg(feature = "verif-hooks")]
+pub(crate) mod verif_local_mbody {
+    use super::*;
+
+    pub(crate) struct ArmRun {
+        /// `old_body.starts_with('{')`
+        pub(crate) has_block_body: bool,
+        /// (`$name`, `zname`) pairs of `replace_names`, sorted
+        pub(crate) substs: Vec<(String, String)>,
+        /// the body was formatted by `format_snippet` (as items), else by `format_code_block`
+        pub(crate) as_items: bool,
+        /// `new_body_snippet.snippet` and `.non_formatted_ranges`
+        pub(crate) snippet: String,
+        pub(crate) ranges: Vec<(usize, usize)>,
+        /// `body_indent.to_string(&config)` and `shape.indent.to_string(&config)`
+        pub(crate) body_indent: String,
+        pub(crate) arm_indent: String,
+        /// `result` before `" {"`: the formatted matcher and `" =>"`
+        pub(crate) prefix: String,
+        /// `MacroBranch::rewrite(context, arm_shape, multi_branch_style)`
+        pub(crate) arm: Option<String>,
+    }
+
+    /// Repeats the steps of `MacroBranch::rewrite` up to the formatted body with the functions
+    /// it calls, then calls it.
+    pub(crate) fn first_arm(
+        context: &RewriteContext<'_>,
+        shape: Shape,
+        def: &ast::MacroDef,
+    ) -> Option<ArmRun> {
+        let ts = def.body.tokens.clone();
+        let mut parser = MacroParser::new(ts.iter());
+        let parsed_def = parser.parse()?;
+        let branch = parsed_def.branches.first()?;
+        let multi_branch_style = def.macro_rules || parsed_def.branches.len() != 1;
+        let arm_shape = if multi_branch_style {
+            shape
+                .block_indent(context.config.tab_spaces())
+                .with_max_width(context.config)
+        } else {
+            shape
+        };
+        if branch.args_paren_kind != Delimiter::Parenthesis {
+            return None;
+        }
+        let old_body = context.snippet(branch.body).trim();
+        let has_block_body = old_body.starts_with('{');
+        let mut prefix_width = 5;
+        if context.config.style_edition() >= StyleEdition::Edition2024 && has_block_body {
+            prefix_width = 6;
+        }
+        let mut prefix = format_macro_args(
+            context,
+            branch.args.clone(),
+            arm_shape.sub_width(prefix_width, branch.span).ok()?,
+        )
+        .ok()?;
+        if multi_branch_style {
+            prefix += " =>";
+        }
+        let (body_str, substs) = replace_names(old_body)?;
+        let mut config = context.config.clone();
+        config.set().show_parse_errors(false);
+        let body_indent = if has_block_body {
+            arm_shape.indent
+        } else {
+            arm_shape.indent.block_indent(&config)
+        };
+        let new_width = config.max_width().saturating_sub(body_indent.width());
+        config.set().max_width(new_width);
+        let (new_body_snippet, as_items) = match crate::format_snippet(&body_str, &config, true) {
+            Some(new_body) => (new_body, true),
+            None => {
+                let new_width = new_width + config.tab_spaces();
+                config.set().max_width(new_width);
+                (crate::format_code_block(&body_str, &config, true)?, false)
+            }
+        };
+        let mut substs: Vec<(String, String)> = substs.into_iter().collect();
+        substs.sort();
+        Some(ArmRun {
+            has_block_body,
+            substs,
+            as_items,
+            snippet: new_body_snippet.snippet.clone(),
+            ranges: new_body_snippet.non_formatted_ranges.clone(),
+            body_indent: body_indent.to_string(&config).into_owned(),
+            arm_indent: arm_shape.indent.to_string(&config).into_owned(),
+            prefix,
+            arm: branch.rewrite(context, arm_shape, multi_branch_style).ok(),
+        })
+    }
+}
